@@ -333,6 +333,8 @@ def first_problem(script, hout, mout, oout):
         if h != m:
             div = {"line": i, "input": l, "impl": h[:600], "model": m[:600]}
             break
+        if h.startswith("ub "):
+            break           # both sides agree the call is undefined behaviour: the real process is gone
     vio = None
     for i, o in enumerate(oout):
         if o.startswith("violation"):
